@@ -32,6 +32,7 @@ def case_strategy(tier):
         'bwd': st.fixed_dictionaries({
             'container': st.sampled_from([18, 18, 18, 9]),
             'esk': st.booleans(),
+            'skc': st.integers(0, 5),
             's2k': st.sampled_from(['iterated', 'salted', 'iterated']),
             'count': st.integers(0, 120),
             'hdr': st.sampled_from(['new', 'old', 'partial', 'new5']),
@@ -193,7 +194,9 @@ def eval_backward(case, rec):
                 esks += wire.build_packet(3, enc.skesk_build(cipher, spec_, r['pw']))
                 direct = True
             else:
-                esks += wire.build_packet(3, enc.skesk_build(cipher, spec_, r['pw'], session))
+                # the cipher that protects the session-key field need not be the cipher of the data (GnuPG mixes them)
+                skc = [cipher, 7, 9, 3, 8, 13][b.get('skc', 0) % 6]
+                esks += wire.build_packet(3, enc.skesk_build(skc, spec_, r['pw'], session, session_sym=cipher))
     cont = wire.build_packet(18, enc.seipd_build(cipher, session, inner)) if b['container'] == 18 else wire.build_packet(9, enc.sed_build(cipher, session, inner))
     blob = esks + cont
     text = armor.write_block('MESSAGE', blob) if case['armored'] else blob
@@ -252,7 +255,7 @@ def matrix(arg):
                     continue
                 case = {'dir': d, 'msg': {'body': (b'covering matrix body %d ' % i * 3).hex(), 'fmt': 'b', 'sensitive': False, 'comp': i % 4, 'signers': []},
                         'cipher': cipher, 'recips': [r], 'armored': bool(i % 2), 'supplied': bool(i % 3 == 0),
-                        'bwd': {'container': 18 if i % 5 else 9, 'esk': bool(i % 2), 's2k': 'iterated' if i % 3 else 'salted', 'count': 16 + i % 50,
+                        'bwd': {'container': 18 if i % 5 else 9, 'esk': bool(i % 2), 'skc': i, 's2k': 'iterated' if i % 3 else 'salted', 'count': 16 + i % 50,
                                 'hdr': ['new', 'old', 'partial', 'new5'][i % 4], 'fname': ['', 'f.txt', 'ünï.txt'][i % 3], 't': 1234567890}}
                 evaluate(case, rec)
     return rec
